@@ -34,6 +34,54 @@ CODEC_NAMES = {'latin_1': ['latin-1', 'iso-8859-1', 'L1', 'ISO8859-1', 'latin1',
                'cp424': ['IBM424', 'ebcdic-cp-he']}
 
 
+def install_call_variants(mod):
+    """For property modules that opt in (CALL_VARIANTS = True) the harness's own calls of iso8583.loads / iso8583.dumps
+    (made through the module attribute; the library's internal calls are untouched) are varied, deterministically from
+    the argument's content:
+      * loads: the message is handed over as bytearray or memoryview for one call in three (the unchanged code reads all
+        three alike), and for one call in four an EARLIER CALL THAT FAILS is made first - the same header and bitmap with
+        the data cut in half, or with the data overwritten by 0xFF - so that whatever a failed decode leaves behind (a half
+        filled memo table for that bitmap, a shared buffer) is in place when the real call is made;
+      * dumps: for one call in four a failing call is made first (the same message plus a value no prefix can count).
+    The model is stateless and argument types do not exist for it, so it is the reference."""
+    if not getattr(mod, 'CALL_VARIANTS', False):
+        return
+    import zlib
+    from cardutil import iso8583
+    real_loads, real_dumps = iso8583.loads, iso8583.dumps
+
+    def loads(b, *a, **k):
+        if isinstance(b, (bytes, bytearray)):
+            h = zlib.crc32(bytes(b))
+            hexbm = k.get('hex_bitmap', a[2] if len(a) > 2 else False)
+            hdr = 36 if hexbm else 20
+            if h % 4 == 1 and len(b) > hdr + 1:
+                bad = bytes(b[:hdr]) + (bytes(b[hdr:hdr + (len(b) - hdr) // 2]) if h & 16 else b'\xff' * (len(b) - hdr))
+                try:
+                    real_loads(bad, *a, **k)
+                except Exception:
+                    pass
+            if h % 3 == 1:
+                b = bytearray(b)
+            elif h % 3 == 2:
+                b = memoryview(bytes(b))
+        return real_loads(b, *a, **k)
+
+    def dumps(m, *a, **k):
+        if isinstance(m, dict):
+            h = zlib.crc32(repr(sorted((str(x), str(y)) for x, y in m.items())).encode('utf8', 'replace'))
+            if h % 4 == 1:
+                bad = dict(m)
+                bad['DE2'] = '9' * 1200
+                bad['PDS0001'] = 'x' * 1200
+                try:
+                    real_dumps(bad, *a, **k)
+                except Exception:
+                    pass
+        return real_dumps(m, *a, **k)
+    iso8583.loads, iso8583.dumps = loads, dumps
+
+
 def for_impl(mod, c):
     if not getattr(mod, 'CODEC_ALIASES', False) or not isinstance(c, dict):
         return c
@@ -121,6 +169,7 @@ def thread_pass(mod, cases, seq, timeout):
 def main():
     start_line_probe()
     mod = importlib.import_module(sys.argv[1])
+    install_call_variants(mod)
     cases = json.load(open(sys.argv[2]))
     timeout = float(sys.argv[4])
     signal.signal(signal.SIGALRM, on_alarm)
